@@ -600,3 +600,17 @@ func onlyCalledFrom(p *Prog, fn, root *ssa.Function, depth int) bool {
 	}
 	return true
 }
+
+
+// sameGlobal compares package-level variables by package path and name: with test
+// variants loaded a package exists twice and its globals are distinct objects.
+func sameGlobal(v ssa.Value, g *ssa.Global) bool {
+	x, ok := v.(*ssa.Global)
+	if !ok {
+		return false
+	}
+	if x == g {
+		return true
+	}
+	return x.Name() == g.Name() && x.Pkg != nil && g.Pkg != nil && x.Pkg.Pkg.Path() == g.Pkg.Pkg.Path()
+}
